@@ -12,3 +12,4 @@ import Scfg.Props.C09
 import Scfg.Props.C11
 import Scfg.Props.C12
 import Scfg.Props.C15
+import Scfg.Props.C17
